@@ -117,7 +117,7 @@ def main(argv: list[str] | None = None) -> int:
             outcome_counts["completed"] += 1
             merge_obs(obs_total, res.get("obs"))
             if res.get("nontrivial"):
-                for sig in (res["sig"] if isinstance(res.get("sig"), list) else [res.get("sig")]):
+                for sig in (res["sigs"] if "sigs" in res else [res.get("sig")]):
                     sigs_nontrivial.add(json.dumps(sig, sort_keys=True, default=str))
             for violation in res.get("violations", []):
                 violations.append({"key": violation["key"], "msg": violation.get("msg", ""),
